@@ -1,6 +1,13 @@
 package scen
 
 import (
+	"bytes"
+	"compress/zlib"
+
+	"github.com/andybalholm/brotli"
+	"github.com/klauspost/compress/zstd"
+	"runtime/debug"
+	"sync"
 	stdtls "crypto/tls"
 	"fmt"
 	"io"
@@ -22,16 +29,16 @@ func init() {
 	Register("C33", &Info{
 		Run:   runC33,
 		Quick: 5000, Thor: 1000000,
-		Rule: "a world = one fingerprint (every parrot by stratum, randomized, generated specs, HelloGolang) and version, whose peer is made hostile in one of two ways: (a) the server's byte stream is corrupted at the transport - bit flips, byte runs overwritten with drawn garbage, truncation, reset, an oversized record header, random records injected - at an offset drawn over the whole server flight and the first application records; (b) the reference server mutates one plaintext handshake message before hashing and encrypting it (ServerHello incl. HelloRetryRequest with cookie, EncryptedExtensions incl. ALPS, Certificate, CompressedCertificate, CertificateVerify, Finished, NewSessionTicket, TLS 1.2 ServerKeyExchange/ServerHelloDone): byte flips, truncation, extension, inner length fields set to extreme values, with the outer length fixed up or not; the client runs Handshake and then Read under a 30 s deadline; oracle: no panic in any task, the world neither deadlocks nor hits the step cap and every client call returns by the deadline, and the bytes allocated while the connection runs stay below 6 MB (the largest legitimate message is a 256 kB certificate message); non-trivial = the mutated bytes were consumed by the client; distinct = (fingerprint, hostile mode, target, mutation, offset class)",
-		Assumptions: []string{"mutation-based, not coverage-guided", "allocation is measured as runtime.MemStats.TotalAlloc growth of the whole worker process during the world (client, server and harness together)"},
+		Rule: "a world = one fingerprint (every parrot by stratum, randomized, generated specs, HelloGolang) and version, whose peer is made hostile in one of two ways: (a) the server's byte stream is corrupted at the transport - bit flips, byte runs overwritten with drawn garbage, truncation, reset, an oversized record header, random records injected - at an offset drawn over the whole server flight and the first application records; (b) the reference server mutates one plaintext handshake message before hashing and encrypting it (ServerHello incl. HelloRetryRequest with cookie, EncryptedExtensions incl. ALPS, Certificate, CompressedCertificate, CertificateVerify, Finished, NewSessionTicket, TLS 1.2 ServerKeyExchange/ServerHelloDone): byte flips, truncation, extension, inner length fields set to extreme values, with the outer length fixed up or not, or a CompressedCertificate whose stream is valid up to the declared length and then goes on decompressing into 48 MB; (c) every fifth world: the reference server completes a genuine handshake and then misbehaves under the negotiated keys - floods of zero-length application_data records (10 .. 150000), KeyUpdate storms with and without update_requested, unexpected handshake messages of drawn types - optionally while the client's own transport writes fail once, fail for good, or block (peer stops reading); the client then keeps using the connection (Read x3, Write, Read, Close); the client runs Handshake and then Read under a 30 s deadline; oracle: no panic in any task, the world neither deadlocks nor hits the step cap and every client call returns by the deadline, and the bytes allocated while the connection runs stay below 6 MB (the largest legitimate message is a 256 kB certificate message); non-trivial = the mutated bytes were consumed by the client; distinct = (fingerprint, hostile mode, target, mutation, offset class)",
+		Assumptions: []string{"mutation-based, not coverage-guided", "the worker process runs with a 32 MB goroutine stack limit (debug.SetMaxStack)", "allocation is measured as runtime.MemStats.TotalAlloc growth of the whole worker process during the world (client, server and harness together)"},
 		Real:        []string{"utls client from /repo"},
 		Stub:        []string{"hostile peers: corrupted utls/std server streams; reference server with message mutation", "transport, clock, crypto/rand"},
 	})
 	Register("C34", &Info{
 		Run:   runC34,
 		Quick: 5000, Thor: 1000000,
-		Rule: "a world = the repository's server (TLS 1.0-1.3, optional ECH keys, optional client-certificate request) facing a raw byte-stream client: a genuine ClientHello taken from a parrot / randomized / generated spec (by run index) is mutated (byte flips, truncation, extension, length fields set to extreme values, extensions duplicated or reordered, ECH and PSK bodies damaged) and framed into records with drawn fragmentation; optionally followed or preceded by uTLS-specific plaintext handshake messages (type 8 client EncryptedExtensions, type 25 CompressedCertificate), a second hello, garbage records, or a TLS 1.2 client flight with damaged ClientKeyExchange; the server runs Handshake and Read under a 30 s deadline; oracle: no panic, no deadlocked world, every server call returns by the deadline, allocation below 6 MB per world; non-trivial = the mutated bytes were consumed by the server; distinct = (source fingerprint, mutation, framing, extra messages)",
-		Assumptions: []string{"post-ServerHello TLS 1.3 client messages are encrypted and cannot be forged without a reference client: only the plaintext part of the client's flight is attacked", "mutation-based, not coverage-guided"},
+		Rule: "a world = the repository's server (TLS 1.0-1.3, optional ECH keys, optional client-certificate request) facing a raw byte-stream client: a genuine ClientHello taken from a parrot / randomized / generated spec (by run index) is mutated (byte flips, truncation, extension, length fields set to extreme values, extensions duplicated or reordered, ECH and PSK bodies damaged) and framed into records with drawn fragmentation; optionally followed or preceded by uTLS-specific plaintext handshake messages (type 8 client EncryptedExtensions, type 25 CompressedCertificate), a second hello, garbage records, or a TLS 1.2 client flight with damaged ClientKeyExchange; every fifth world: a reference client completes a genuine handshake (optionally with ECH, its encoded inner ClientHello rewritten before HPKE sealing: ech_outer_extensions entries missing / out of order / duplicated / naming the ECH extension, or byte mutations) and then misbehaves under the negotiated keys like the hostile server of C33 while the server's transport writes may fail; the server then keeps using the connection; the server runs Handshake and Read under a 30 s deadline; oracle: no panic, no deadlocked world, every server call returns by the deadline, allocation below 6 MB per world; non-trivial = the mutated bytes were consumed by the server; distinct = (source fingerprint, mutation, framing, extra messages)",
+		Assumptions: []string{"the raw byte-stream client attacks only the plaintext part of the client's flight; encrypted messages come from the reference client (frozen fork, sim/refsrv)", "mutation-based, not coverage-guided", "the worker process runs with a 32 MB goroutine stack limit (debug.SetMaxStack)"},
 		Real:        []string{"utls server (tls.Server, ECH server side) from /repo"},
 		Stub:        []string{"raw byte-stream client (harness)", "transport, clock, crypto/rand"},
 	})
@@ -114,7 +121,26 @@ func memNow() uint64 {
 
 const allocLimit = 6 << 20
 
+var stackCapOnce sync.Once
+
+// capStack lowers the goroutine stack limit of the worker process from 1 GB to 32 MB: unbounded
+// recursion driven by peer input then ends in the runtime's fatal "stack overflow" within what a
+// world can send, and the driver reports the crashed world.
+func capStack() {
+	stackCapOnce.Do(func() {
+		debug.SetMaxStack(32 << 20)
+		for _, a := range []uint16{1, 2, 3} {
+			bombCompress(a, []byte("warm-up")) // encoders are created once, outside any measured world
+		}
+	})
+}
+
 func runC33(c *Ctx) {
+	capStack()
+	if c.Run%5 == 4 {
+		runC33Post(c)
+		return
+	}
 	ch := c.Ch
 	stratum := int64(-1)
 	if c.Run%3 == 0 {
@@ -138,6 +164,7 @@ func runC33(c *Ctx) {
 	sp := &ConnSpec{ID: f.IDI.ID, Spec: f.Spec(), CCfg: ccfg, Deadline: 30 * time.Second}
 	desc := ""
 	hugeLen := false
+	bombAlg := uint16(0)
 	var link *simnet.Link
 	var consumedCheck func() bool
 	switch mode {
@@ -219,10 +246,19 @@ func runC33(c *Ctx) {
 					hugeLen = true
 				}
 			}
+			if cfg.Byz.CertCompLenDelta == 0 && ch.Bool(35, "bomb") {
+				// a stream that is valid up to the declared length and then goes on decompressing
+				// into tens of megabytes (reused encoders: the harness allocates next to nothing)
+				bombAlg = cfg.Byz.CertCompAlg
+				c.Probe("decompression-bomb")
+			}
 			// stored-block zlib: the real encoders allocate tens of megabytes themselves, which
 			// would drown the client's allocations in the process-wide measurement (for algorithm
 			// ids 2 and 3 the stream is simply not what the id announces: still hostile input)
 			cfg.Byz.CertCompress = zlibCompress(0, 0)
+			if bombAlg != 0 {
+				cfg.Byz.CertCompress = bombCompress // declared length stays that of the real message
+			}
 		case 3:
 			cfg.Byz.ALPSCodepoint = []uint16{17513, 17613}[ch.Pick(2, "alpscp")]
 			cfg.Byz.ALPSSettings = []byte("server-settings")
@@ -298,12 +334,21 @@ func runC33(c *Ctx) {
 	if w.Now() > 31*time.Second+5*time.Second {
 		c.Violate("client-call-returned-after-deadline "+mode, "%s: world ended at %v", c.R.Class, w.Now())
 	}
-	if grown > allocLimit {
+	limit := uint64(allocLimit)
+	if bombAlg != 0 {
+		// a real brotli / zstd decoder allocates its window (up to 16 MB by RFC 7932) before the first
+		// byte comes out: that much is within the formats' own limits
+		limit = 32 << 20
+	}
+	if grown > limit {
 		what := strings.SplitN(desc, " ", 2)[0]
 		if hugeLen {
 			what = "compressed-certificate-declared-length"
 		}
-		c.Violate(fmt.Sprintf("allocation-beyond-protocol-limits %s", what), "%s: %d bytes allocated during the connection (limit %d); client error %v", c.R.Class, grown, allocLimit, o.CErr)
+		if bombAlg != 0 {
+			what = "compressed-certificate-bomb"
+		}
+		c.Violate(fmt.Sprintf("allocation-beyond-protocol-limits %s", what), "%s: %d bytes allocated during the connection (limit %d); client error %v", c.R.Class, grown, limit, o.CErr)
 	}
 	if c.R.Run%500 == 0 {
 		c.R.Sample = map[string]any{"fingerprint": f.IDI.Name, "mode": mode, "desc": desc, "client_error": fmt.Sprint(o.CErr), "allocated": grown}
@@ -344,6 +389,11 @@ func frameRecords(ch *simrt.Chooser, msgs []byte, recVersion uint16) []byte {
 }
 
 func runC34(c *Ctx) {
+	capStack()
+	if c.Run%5 == 4 {
+		runC34Post(c)
+		return
+	}
 	ch := c.Ch
 	// source hello
 	stratum := int64(-1)
@@ -480,3 +530,50 @@ func runC34(c *Ctx) {
 }
 
 func simrandStream(ch *simrt.Chooser) *simrandT { return newSimrand(ch.U64("ech-keys")) }
+
+const bombTail = 48 << 20
+
+var (
+	bombZ   *zlib.Writer
+	bombB   *brotli.Writer
+	bombS   *zstd.Encoder
+	bombBuf bytes.Buffer
+	bombZero = make([]byte, 1<<16)
+)
+
+// bombCompress compresses msg followed by bombTail zero bytes with the announced algorithm, using
+// one encoder per process (Reset between uses).
+func bombCompress(alg uint16, msg []byte) []byte {
+	bombBuf.Reset()
+	var w io.Writer
+	var done func()
+	switch alg {
+	case 2:
+		if bombB == nil {
+			bombB = brotli.NewWriterLevel(&bombBuf, 1)
+		} else {
+			bombB.Reset(&bombBuf)
+		}
+		w, done = bombB, func() { bombB.Close() }
+	case 3:
+		if bombS == nil {
+			bombS, _ = zstd.NewWriter(&bombBuf, zstd.WithEncoderLevel(zstd.SpeedFastest), zstd.WithEncoderConcurrency(1), zstd.WithWindowSize(1<<17))
+		} else {
+			bombS.Reset(&bombBuf)
+		}
+		w, done = bombS, func() { bombS.Close() }
+	default:
+		if bombZ == nil {
+			bombZ, _ = zlib.NewWriterLevel(&bombBuf, 1)
+		} else {
+			bombZ.Reset(&bombBuf)
+		}
+		w, done = bombZ, func() { bombZ.Close() }
+	}
+	w.Write(msg)
+	for n := 0; n < bombTail; n += len(bombZero) {
+		w.Write(bombZero)
+	}
+	done()
+	return append([]byte(nil), bombBuf.Bytes()...)
+}
